@@ -202,8 +202,9 @@ func treeExplore(r *mc.Run, prop string) {
 		t := shapes[i]
 		xml := buildTree(t.root, t.depths, t.labels, p)
 		enc := idp.Encode(xml, i%5 == 0)
+		sp := attCfgs[0].Conf.Build()
 		for ci := 0; ci < ncfg; ci++ {
-			keys, detail, class := attJudge(enc, xml, ci)
+			keys, detail, class := attJudge(enc, xml, ci, sp)
 			r.Eval(1)
 			r.Bucket("tree/" + class)
 			if class != "rejected" {
